@@ -177,12 +177,45 @@ func (n *normaliser) qualifier(f *ast.File, ok *bool) types.Qualifier {
 			return ""
 		}
 		name, found := imp[p.Path()]
-		if !found || name == "_" || name == "." || name == "" {
+		if found && (name == "_" || name == "." || name == "") {
 			*ok = false
+			return p.Name()
+		}
+		if !found {
+			if !n.wantImport(f, p.Path(), p.Name()) {
+				*ok = false
+			}
 			return p.Name()
 		}
 		return name
 	}
+}
+
+// wantImport arranges for the file to import path under name (an extra import
+// declaration after the package clause) unless the name is taken.
+func (n *normaliser) wantImport(f *ast.File, path, name string) bool {
+	for _, is := range f.Imports {
+		nm := ""
+		if is.Name != nil {
+			nm = is.Name.Name
+		} else if p := n.pk.Imports[strings.Trim(is.Path.Value, `"`)]; p != nil {
+			nm = p.Name
+		}
+		if nm == name {
+			return strings.Trim(is.Path.Value, `"`) == path
+		}
+	}
+	if n.pk.Types.Scope().Lookup(name) != nil {
+		return false
+	}
+	if n.imports == nil {
+		n.imports = map[*ast.File]map[string]string{}
+	}
+	if n.imports[f] == nil {
+		n.imports[f] = map[string]string{}
+	}
+	n.imports[f][path] = name
+	return true
 }
 
 // hygienic: every free name of the helper's body means the same thing at the
@@ -210,9 +243,10 @@ func (n *normaliser) hygienic(s *site, callerFile *ast.File, at token.Pos) bool 
 				if calleeFile == callerFile {
 					break
 				}
-				found := false
+				found, samePath := false, false
 				for _, is := range callerFile.Imports {
 					if strings.Trim(is.Path.Value, `"`) == o.Imported().Path() {
+						samePath = true
 						nm := o.Imported().Name()
 						if is.Name != nil {
 							nm = is.Name.Name
@@ -222,7 +256,7 @@ func (n *normaliser) hygienic(s *site, callerFile *ast.File, at token.Pos) bool 
 						}
 					}
 				}
-				if !found {
+				if !found && (samePath || !n.wantImport(callerFile, o.Imported().Path(), id.Name)) {
 					good = false
 				}
 				return true
@@ -460,6 +494,17 @@ func (n *normaliser) inlineAll() {
 			continue
 		}
 		for _, d := range f.Decls {
+			if gd, isGen := d.(*ast.GenDecl); isGen {
+				// function literals in package-level initialisers (e.g. the sort keys)
+				ast.Inspect(gd, func(x ast.Node) bool {
+					if fl, ok := x.(*ast.FuncLit); ok {
+						n.visitList(f, nil, fl.Body.List)
+						return false
+					}
+					return true
+				})
+				continue
+			}
 			fd, ok := d.(*ast.FuncDecl)
 			if !ok || fd.Body == nil {
 				continue
